@@ -26,13 +26,16 @@ TRACE_CONSTANTS = 'PastApis = %s' % PAST_APIS
 
 # ------------------------------------------------------------------------------
 def mc_cfg(apis, nn=2, ne=2, devs=(), timeouts=(0, 1, 4), maxreq=2, trajend=3,
-           maxtick=6, mayclose=True, invariants=None):
+           maxtick=6, mayclose=True, invariants=None, oddkinds=('contra',), abort_on=(), record=False):
     c = ('CONSTANTS\n NN = %d\n NE = %d\n Apis = {%s}\n Timeouts = {%s}\n MaxReq = %d\n'
          ' TrajEnd = %d\n MaxTick = %d\n MayClose = %s\n PastApis = %s\n'
          % (nn, ne, ', '.join('"%s"' % a for a in apis), ', '.join(str(t) for t in timeouts),
             maxreq, trajend, maxtick, 'TRUE' if mayclose else 'FALSE', PAST_APIS))
     for d in DEVS:
         c += ' %s = %s\n' % (d, 'TRUE' if d in devs else 'FALSE')
+    c += ' RecordOdd = %s\n' % ('TRUE' if record else 'FALSE')
+    c += ' OddKinds = {%s}\n DevBulkAbortOn = {%s}\n' % (
+        ', '.join('"%s"' % k for k in oddkinds), ', '.join('"%s"' % k for k in abort_on))
     c += 'SPECIFICATION Spec\nCHECK_DEADLOCK FALSE\n'
     for i in (INVARIANTS if invariants is None else invariants):
         c += 'INVARIANT %s\n' % i
@@ -48,12 +51,15 @@ def case_from_behaviour(path):
     s0 = steps[0][2]
     def stale_of(s):
         return [v if v != t else -1 for v, t in zip(s['seen'], s['st'])]
-    traj, closing, stale = [], [], [stale_of(s0)]
-    for act, _, s in steps[1:]:
-        if act == 'Poll':
+    traj, closing, stale, odd = [], [], [stale_of(s0)], [None]
+    tick = 0
+    for act, args, s in steps[1:]:
+        if s['tick'] > tick:                         # a Poll step
+            tick = s['tick']
             traj.append(list(s['st']))
             closing.append(bool(s['closing']))
             stale.append(stale_of(s))
+            odd.append(list(s['odd']) if s['odd'][0] else None)     # b, kind, k
     case = W.make_case(s0['api'], len(s0['st']), s0['kind'], sorted(s0['awaited']), s0['rform'],
                        list(s0['R']), s0['timeout'], list(s0['st']), traj, s0['closing'], closing)
     last  = steps[-1][2]
@@ -62,6 +68,8 @@ def case_from_behaviour(path):
         model = {'tick': last['rtick'], 'shape': last['rshape'], 'val': list(last['rval'])}
     if any(v >= 0 for vec in stale for v in vec):
         case['stale'] = stale          # the environment of a notification case
+    if any(odd):
+        case['odd'] = odd              # the odd entries of the notification bulks
     return case, model
 
 
@@ -112,6 +120,14 @@ D7P = 'Pilot.wait: pilot final in a state that was not awaited'
 D7N = 'Pilot.wait: pilot already in an awaited final state at the call'
 
 
+def diverged(trace):
+    '''the client-side objects hold something else than the furthest state
+       notified (two different final states: a raced task, accepted)'''
+    nn = trace['nn']
+    return any(a != b and not (a >= nn and b >= nn)
+               for e in trace['events'] if 'seen' in e for a, b in zip(e['seen'], e['st']))
+
+
 NAMES = {'task': 'Task.wait', 'pilot': 'Pilot.wait', 'tmgr': 'TaskManager.wait_tasks',
          'pmgr': 'PilotManager.wait_pilots'}
 
@@ -120,7 +136,9 @@ def classify(trace, clause):
     '''call-site class of a failing trace (for known-findings matching)'''
     api, nn = trace['api'], trace['nn']
     want = trace['R'] or [nn, nn + 1, nn + 2]
-    if any(e.get('seen', e.get('st')) != e.get('st') for e in trace['events']):
+    if diverged(trace) and trace.get('notify_raised'):
+        return '%s: the rest of a notification bulk was lost (the subscriber callback raised)' % NAMES[api]
+    if diverged(trace):
         return '%s: client-side state behind the furthest state notified' % NAMES[api]
     if api == 'task' and trace['rform'] == 'none':
         return D6
@@ -146,7 +164,7 @@ def key_of(case):
 
 
 # ------------------------------------------------------------------------------
-def validate(chk, cases, kinds, batch=1500):
+def validate(chk, cases, kinds, batch=2000):
     traces = W.run_cases(cases)
     res, st = tracecheck.validate('Wait', 'WaitTrace', TRACE_CONSTANTS, traces,
                                   max_batch=batch, timeout=1200)
@@ -175,9 +193,10 @@ def run(chk, tier, seed):
 
     # ---- 1. design model, exhaustive ------------------------------------------
     nn = 2 if quick else 3
-    for apis, ne in ((['task', 'pilot'], 1), (['tmgr'], 2), (['pmgr'], 2)):
+    odds = ('contra',) if quick else ('contra', 'stale', 'dup')
+    for apis, ne in ((['task', 'pilot'], 2), (['tmgr'], 2), (['pmgr'], 2)):
         res = tlc.run('Wait', 'Wait', 'MC.cfg', workers=16, timeout=900,
-                      extra_files=mc_cfg(apis, nn=nn, ne=ne))
+                      extra_files=mc_cfg(apis, nn=nn, ne=ne, oddkinds=odds))
         chk.add_tlc(res, 'exhaustive:' + '+'.join(apis))
         if not res.ok:
             raise Machinery('design model Wait violates %s for %s (intended design must hold):\n%s'
@@ -200,10 +219,14 @@ def run(chk, tier, seed):
                   (['DevPilotNoneReturn'], ['pilot'], 1, 'InvTruthful'),
                   (['DevStaleApplied'], ['pilot', 'pmgr'], 1, True),
                   (['DevStaleApplied'], ['task', 'tmgr'], 1, True)]
+        expect += [(['DevBulkAbortOn=' + k], ['task', 'tmgr'], 1, True)
+                   for k in ('contra', 'stale', 'dup')]
         for devs, apis, maxreq, inv in expect:
+            abort = tuple(d.split('=')[1] for d in devs if '=' in d)
             res = tlc.run('Wait', 'Wait', 'MC.cfg', workers=16, timeout=600,
-                          extra_files=mc_cfg(apis, nn=2, ne=1 if inv is not True else 2, devs=devs,
-                                             maxreq=maxreq))
+                          extra_files=mc_cfg(apis, nn=2, ne=1 if inv is not True else 2,
+                                             devs=[d for d in devs if '=' not in d], maxreq=maxreq,
+                                             abort_on=abort, oddkinds=abort or ('contra',)))
             chk.add_tlc(res, 'deviation:%s/maxreq=%d' % ('+'.join(devs), maxreq))
             if (inv is True and res.ok) or (inv is not True and res.violated != inv):
                 raise Machinery('deviation %s (maxreq %d): expected %s, TLC says %s'
@@ -228,28 +251,44 @@ def run(chk, tier, seed):
     # direct: the model of the intended design (== the code, if no known deviation
     # is left in it); notify: the environment of the model in which stale
     # notifications stick supplies which stale notification arrives when
-    nsim = 150 if quick else 2500
+    nsim = 150 if quick else 2000
+    # bulks: the model in which an odd bulk entry aborts the rest of the message
+    # supplies which odd entry (contradicting final / stale / duplicate) sits
+    # where in which bulk
+    ALLODD = ('contra', 'stale', 'dup')
     for apis, mayclose, devs, share in (
-            (['task', 'pilot'], False, [], 1.0), (['tmgr', 'pmgr'], False, [], 1.0),
+            (['task', 'pilot', 'tmgr', 'pmgr'], False, [], 2.0),
             (['task', 'pilot', 'tmgr', 'pmgr'], True, [], 0.6),
-            (['task', 'pilot'], False, ['DevStaleApplied'], 1.0),
-            (['tmgr', 'pmgr'], False, ['DevStaleApplied'], 1.0)):
+            (['task', 'pilot', 'tmgr', 'pmgr'], False, ['DevStaleApplied'], 2.0),
+            (['task', 'tmgr'], False, ['bulk'], 2.0),
+            (['tmgr'], False, ['bulk', 3], 0.0 if quick else 0.15)):
+        if not share:
+            continue
         dump = tlc.scratch('rpsim_')
         try:
             res = tlc.run('Wait', 'Wait', 'MC.cfg', workers=1, timeout=900,
-                          simulate='num=%d' % int(nsim * share), depth=12,
+                          simulate='num=%d' % max(int(nsim * share), 1), depth=12,
                           seed=rng.randrange(10 ** 6), dump_dir=dump,
-                          extra_files=mc_cfg(apis, nn=3, ne=2, devs=devs, mayclose=mayclose,
-                                             timeouts=(0, 1, 2, 4), invariants=['TypeOK']))
-            chk.add_tlc(res, 'simulate:%s%s' % ('+'.join(apis), '/stale' if devs else ''))
+                          extra_files=mc_cfg(apis, nn=3, ne=3 if devs[1:] == [3] else 2,
+                                             devs=[d for d in devs if d not in ('bulk', 3)],
+                                             mayclose=mayclose, timeouts=(0, 1, 2, 4),
+                                             invariants=['TypeOK'],
+                                             oddkinds=ALLODD if devs[:1] == ['bulk'] else (),
+                                             abort_on=ALLODD if devs[:1] == ['bulk'] else (),
+                                             record=devs[:1] == ['bulk']))
+            chk.add_tlc(res, 'simulate:%s%s' % ('+'.join(apis), '/' + str(devs[0]) if devs else ''))
             for f in tlc.sim_files(dump):
                 case, model = case_from_behaviour(f)
                 if case is None:
                     continue
                 emb   = W.embedding(case['api'], 3, random.Random(rng.randrange(10 ** 9)))
                 stale = case.pop('stale', None)
+                odd   = case.pop('odd', None)
                 real  = W.embed(case, emb)
-                if devs:
+                if devs[:1] == ['bulk']:
+                    add(W.to_notify(real, policy='none', odd=odd, bulk=True),
+                        'tlc-behaviour/notify-bulk')
+                elif devs:
                     stale = [[emb(v) for v in vec] for vec in stale] if stale else None
                     add(W.to_notify(real, policy='none', stale=stale), 'tlc-behaviour/notify')
                 else:
@@ -266,20 +305,24 @@ def run(chk, tier, seed):
     pool = list(small_scope(nn_model=nm, n=nm))           # thorough: all 88200
     if quick:
         rng.shuffle(pool)
-        pool = pool[:900]
+        pool = pool[:700]
     for c in pool:
         add(W.embed(c, W.embedding(c['api'], nm, random.Random(rng.randrange(10 ** 9)))), 'small-scope')
-    for i, c in enumerate(rng.sample(pool, 700 if quick else 25000)):
+    for i, c in enumerate(rng.sample(pool, 500 if quick else 15000)):
         erng = random.Random(rng.randrange(10 ** 9))
         real = W.embed(c, W.embedding(c['api'], nm, erng))
-        add(W.to_notify(real, erng, policy='echo' if i % 2 else 'random'), 'small-scope/notify')
+        add(W.to_notify(real, erng, policy='echo' if i % 2 else 'random', bulk=i % 4 >= 2),
+            'small-scope/notify')
     n_small = len(cases) - n_tlc
 
     # ---- 5. seeded random cases over the full state chains -----------------------
-    for _ in range(700 if quick else 8000):
+    for _ in range(500 if quick else 5000):
         add(W.random_case(rng), 'random')
-    for _ in range(600 if quick else 8000):
-        add(W.to_notify(W.random_case(rng), rng, policy='random'), 'random/notify')
+    for i in range(500 if quick else 5000):
+        add(W.to_notify(W.random_case(rng), rng, policy='random', bulk=i % 2 == 1), 'random/notify')
+    # a cancellation races the execution of one task of a bulk
+    for _ in range(400 if quick else 6000):
+        add(W.race_case(rng), 'race/notify-bulk')
     n_rand = len(cases) - n_tlc - n_small
 
     # ---- 6. run the real methods, validate every trace ----------------------------
@@ -295,13 +338,19 @@ def run(chk, tier, seed):
                      'at the same tick with the same value as the model of the intended '
                      'design' % (same, len(models)))
     n_not = sum(1 for c in cases if c.get('mode') == 'notify')
-    n_div = sum(1 for t in traces if any(e.get('seen', e.get('st')) != e.get('st') for e in t['events']))
+    n_div = sum(1 for t in traces if diverged(t))
+    n_blk = sum(1 for c in cases if c.get('mode') == 'notify'
+                  for tick in [c['notes0']] + c['notes'] for m in tick
+                  if m and isinstance(m[0], list) and len(m) > 1)
+    n_con = sum(1 for t in traces if any(a for e in t['events'] if e['ev'] == 'Return' for a in e['alt']))
     n_exc = sum(t['notify_raised'] for t in traces)
     chk.notes.append('cases: %d from TLC behaviours, %d small-scope, %d random; %d of them apply '
                      'the trajectory through the real notification paths (duplicates, stale and '
-                     'post-final notifications included); client-side state differed from the '
-                     'furthest state notified in %d traces; the notification path raised %d times'
-                     % (n_tlc, n_small, n_rand, n_not, n_div, n_exc))
+                     'post-final notifications included; %d multi-entry bulks; %d traces with '
+                     'contradicting final notifications for an entity); client-side state differed '
+                     'from the furthest state notified in %d traces; the notification path raised '
+                     '%d times (logged by the listener, rest of that message lost)'
+                     % (n_tlc, n_small, n_rand, n_not, n_blk, n_con, n_div, n_exc))
     for i in (0, n_tlc, n_tlc + n_small):
         if i < len(traces):
             chk.sample({'kind': kinds[i], 'call': {k: v for k, v in traces[i].items() if k != 'events'},
@@ -312,9 +361,15 @@ def run(chk, tier, seed):
         'entity trajectories are legal in the state model (forward in the numeric order, a '
         'final state is never left); they are written into Task._state / Pilot._state, or '
         '(notify cases) delivered as state notifications to the real _state_sub_cb of the manager, '
-        'one notification per message, mixed with duplicates, stale and post-final non-final '
-        'notifications; there the actual state is the furthest state ever notified, the first final '
-        'one being sticky (no contradicting final notifications are generated)',
+        'one entry per message or (tasks) bulks of several entries, mixed with duplicates, stale, '
+        'post-final non-final and contradicting final entries (CANCELED, then DONE / FAILED); there '
+        'the actual state is the furthest state ever notified; an entity with contradicting final '
+        'notifications may hold any of the final states notified',
+        'the pubsub listener is modelled as ru.zmq.Subscriber._listener: an exception leaving the '
+        'subscriber callback is logged, the listener goes on, the rest of that message is lost; '
+        'every entry of a message counts as notified',
+        'pilot notifications are delivered one pilot per message (PilotManager._state_sub_cb leaves '
+        'a message after its first pilot: not judged here)',
         'a call is due when every awaited entity has been in a requested state or final at a '
         'poll instant (in or past the earliest requested state for wait_tasks), or the timeout '
         'has elapsed; exact-state matching of Task.wait, Pilot.wait and wait_pilots is accepted',
